@@ -478,6 +478,18 @@ def c17(res):
             res.violation({"property": "C17", "module": "resolver", "config": out["config"]["name"], "family": d["family"],
                            "why": "Resolver on a class with user-defined special methods (%s) differs from the plain class: path %r" % (d["family"], d["plain"].get("path")),
                            "par": d["par"], "ch": d["ch"], "query": d["query"], "plain": d["plain"], "adversarial": d["adversarial"]})
+    from . import m5_export
+
+    for out in m5_export.run("graph", res.tier):
+        if out["tlc"]["key"] not in seen:
+            seen.add(out["tlc"]["key"])
+            res.add_tlc(out["tlc"])
+        res.replayed += out["vectors"]
+        for att in out["attention"]:
+            for b in att["bad"]:
+                if "always-equal" in str(b.get("what", "")):
+                    res.violation({"property": "C17", "module": "export", "config": out["config"]["name"], "family": "adv:alwayseq:mixin",
+                                   "why": "%s exporter: %s" % (b.get("kind"), b["what"]), "par": att["par"], "ch": att["ch"], "observed": b})
     from . import m4_render
 
     rout = m4_render.run_adversarial(res.tier)
